@@ -522,9 +522,9 @@ static mut MARK: u8 = 0xff;
 static mut M_OFF_OK: bool = false;
 static mut M_LEN: usize = 0;
 static mut M_ARG: usize = usize::MAX;
-static mut M_CALLS: u32 = 0;
-static mut BASE: usize = 0;
-static mut M_FAIL: bool = false;
+pub(crate) static mut M_CALLS: u32 = 0;
+pub(crate) static mut BASE: usize = 0;
+pub(crate) static mut M_FAIL: bool = false;
 
 fn mark<'a>(id: u8, i: &'a [u8], arg: usize) -> IResult<&'a [u8], HS<'a>> {
     unsafe {
@@ -539,27 +539,27 @@ fn mark<'a>(id: u8, i: &'a [u8], arg: usize) -> IResult<&'a [u8], HS<'a>> {
     }
     Ok((i, HS::KeyUpdate(id)))
 }
-fn st_hello_request(i: &[u8]) -> IResult<&[u8], HS> { mark(0x00, i, usize::MAX) }
-fn st_client_hello(i: &[u8]) -> IResult<&[u8], HS> { mark(0x01, i, usize::MAX) }
-fn st_server_hello(i: &[u8]) -> IResult<&[u8], HS> { mark(0x02, i, usize::MAX) }
-fn st_nst(i: &[u8], l: usize) -> IResult<&[u8], HS> { mark(0x04, i, l) }
-fn st_hrr(i: &[u8]) -> IResult<&[u8], HS> { mark(0x06, i, usize::MAX) }
-fn st_cert(i: &[u8]) -> IResult<&[u8], HS> { mark(0x0b, i, usize::MAX) }
-fn st_ske(i: &[u8], l: usize) -> IResult<&[u8], HS> { mark(0x0c, i, l) }
-fn st_certreq(i: &[u8]) -> IResult<&[u8], HS> { mark(0x0d, i, usize::MAX) }
-fn st_done(i: &[u8], l: usize) -> IResult<&[u8], HS> { mark(0x0e, i, l) }
-fn st_certverify(i: &[u8], l: usize) -> IResult<&[u8], HS> { mark(0x0f, i, l) }
-fn st_cke(i: &[u8], l: usize) -> IResult<&[u8], HS> { mark(0x10, i, l) }
-fn st_finished(i: &[u8], l: usize) -> IResult<&[u8], HS> { mark(0x14, i, l) }
-fn st_certstatus(i: &[u8]) -> IResult<&[u8], HS> { mark(0x16, i, usize::MAX) }
-fn st_keyupdate(i: &[u8]) -> IResult<&[u8], HS> { mark(0x18, i, usize::MAX) }
-fn st_npn(i: &[u8]) -> IResult<&[u8], HS> { mark(0x43, i, usize::MAX) }
+pub(crate) fn st_hello_request(i: &[u8]) -> IResult<&[u8], HS> { mark(0x00, i, usize::MAX) }
+pub(crate) fn st_client_hello(i: &[u8]) -> IResult<&[u8], HS> { mark(0x01, i, usize::MAX) }
+pub(crate) fn st_server_hello(i: &[u8]) -> IResult<&[u8], HS> { mark(0x02, i, usize::MAX) }
+pub(crate) fn st_nst(i: &[u8], l: usize) -> IResult<&[u8], HS> { mark(0x04, i, l) }
+pub(crate) fn st_hrr(i: &[u8]) -> IResult<&[u8], HS> { mark(0x06, i, usize::MAX) }
+pub(crate) fn st_cert(i: &[u8]) -> IResult<&[u8], HS> { mark(0x0b, i, usize::MAX) }
+pub(crate) fn st_ske(i: &[u8], l: usize) -> IResult<&[u8], HS> { mark(0x0c, i, l) }
+pub(crate) fn st_certreq(i: &[u8]) -> IResult<&[u8], HS> { mark(0x0d, i, usize::MAX) }
+pub(crate) fn st_done(i: &[u8], l: usize) -> IResult<&[u8], HS> { mark(0x0e, i, l) }
+pub(crate) fn st_certverify(i: &[u8], l: usize) -> IResult<&[u8], HS> { mark(0x0f, i, l) }
+pub(crate) fn st_cke(i: &[u8], l: usize) -> IResult<&[u8], HS> { mark(0x10, i, l) }
+pub(crate) fn st_finished(i: &[u8], l: usize) -> IResult<&[u8], HS> { mark(0x14, i, l) }
+pub(crate) fn st_certstatus(i: &[u8]) -> IResult<&[u8], HS> { mark(0x16, i, usize::MAX) }
+pub(crate) fn st_keyupdate(i: &[u8]) -> IResult<&[u8], HS> { mark(0x18, i, usize::MAX) }
+pub(crate) fn st_npn(i: &[u8]) -> IResult<&[u8], HS> { mark(0x43, i, usize::MAX) }
 
 /// does this type take the declared length as an argument?
 fn takes_len(t: u8) -> bool {
     matches!(t, 0x04 | 0x0c | 0x0e | 0x0f | 0x10 | 0x14)
 }
-fn is_known(t: u8) -> bool {
+pub(crate) fn is_known(t: u8) -> bool {
     matches!(t, 0x00 | 0x01 | 0x02 | 0x04 | 0x05 | 0x06 | 0x0b | 0x0c | 0x0d | 0x0e | 0x0f | 0x10 | 0x14 | 0x16 | 0x18 | 0x43)
 }
 
